@@ -245,6 +245,10 @@ static std::string frame_json(const Frame &f) {
   r += "\"sk\":" + jstr(f.cookie.size() > 8 ? f.cookie.substr(8) : "") + ",";
   std::string ln = f.qname;
   for (auto &c : ln) c = (char)tolower((unsigned char)c);
+  std::string kn = ln;
+  if (!kn.empty() && kn.back() == '.') kn.pop_back();
+  r += "\"kname\":" + jstr(kn) + ",";
+  r += "\"rd\":" + std::to_string(f.rd) + ",\"cd\":" + std::to_string(f.cd) + ",";
   r += "\"t\":" + std::to_string(token_of_name(ln)) + ",\"lname\":" + jstr(ln) + ",";
   r += "\"name\":" + jstr(f.qname) + "}";
   return r;
